@@ -35,8 +35,17 @@ def wrap_exact(x, c, P):
 
 
 # ------------------------------------------------------------------------------ generator
+REBIN_FOCUS = {"use_grids": True, "p_expand": 0.0, "sig_mode": False, "keep": True, "p_eb": 0.0, "periodic": False,
+               "p_restart": 0.15, "p_out": 0.4, "big_grids": True}
+
+
 def gen_scn(r, k, forced=None):
-    f = forced or {}
+    """forced: overrides; REBIN_FOCUS = large grids, keepHills, rebinning restarts whose new boundaries are larger,
+    smaller (cutting through the region where hills sit) or shifted, then excursions beyond the new boundaries"""
+    f = dict(forced or {})
+    if f.get("big_grids"):
+        f.setdefault("nd", r.choice([1, 1, 2]))
+        f.setdefault("hw", r.choice([1.0, 1.5, 2.0]))
     nd = f.get("nd", r.choice([1, 1, 1, 2, 2, 3]))
     use_grids = f.get("use_grids", r.random() < 0.8)
     sig_mode = f.get("sig_mode", r.random() < 0.25)       # gaussianSigmas instead of hillWidth
@@ -48,6 +57,8 @@ def gen_scn(r, k, forced=None):
             v["kind"] = r.choice([1, 2, 3])
         v["w"] = r.choice([1.0, 0.5, 0.25, 2.0])
         v["nx"] = r.randint(3, 6) if nd == 3 else r.randint(4, 12)
+        if f.get("big_grids"):
+            v["nx"] = r.randint(14, 26) if nd == 1 else r.randint(10, 16)
         v["periodic"] = v["kind"] == 0 and f.get("periodic", r.random() < 0.3)
         v["gper"] = False
         v["expand"] = False
@@ -85,7 +96,7 @@ def gen_scn(r, k, forced=None):
         vars_.append(v)
     c = {"id": k, "vars": vars_, "use_grids": use_grids, "sig_mode": sig_mode, "hw": 0.0 if sig_mode else hw,
          "W": r.choice([0.125, 0.5, 1.0]), "freq": f.get("freq", r.choice([1, 1, 2, 2, 3, 4])),
-         "keep": r.random() < 0.5, "wt": f.get("wt", r.random() < 0.4), "bt": r.choice([300.0, 1000.0, 3000.0]),
+         "keep": f.get("keep", r.random() < 0.5), "wt": f.get("wt", r.random() < 0.4), "bt": r.choice([300.0, 1000.0, 3000.0]),
          "stepzero": r.random() < 0.25}
     c["eb"] = None
     if use_grids and not any(v["expand"] for v in vars_) and r.random() < f.get("p_eb", 0.2):
@@ -133,11 +144,16 @@ def gen_scn(r, k, forced=None):
                 events.append(("rebin", g))
                 rebin_on = True
                 can_rebin_grids = False      # once: a second extension would have to know the expansions since
-            elif can_rebin and r.random() < 0.5:
+            elif can_rebin and r.random() < (0.85 if f.get("big_grids") else 0.5):
                 g = []
                 for v, b in zip(vars_, cur):
                     lo = b["lower"] + r.randint(-3, 3) * v["w"] / 2
                     nx = b["nx"] if v["gper"] else max(3, b["nx"] + r.randint(-2, 3))
+                    if f.get("big_grids") and not v["gper"]:
+                        # new boundaries larger, smaller (up to half of the grid cut away on either side) or shifted, by half bins
+                        lo = b["lower"] + r.randint(-6, b["nx"]) * v["w"] / 2
+                        up = b["upper"] - r.randint(-6, b["nx"]) * v["w"] / 2
+                        nx = max(3, int(round((up - lo) / v["w"])))
                     if v["hlo"]:          # a boundary declared hard stays where it is
                         lo = b["lower"]
                     if v["hup"]:
@@ -908,6 +924,8 @@ def oracle(c, impl, traj):
                 dbl = [h for h in pend if any(g[0] == h[0] and g[2] == h[2] for g in im["off"])]
                 if close(im["E"], eo) and dbl and esum(c, x, dbl) != 0.0 and close(im["E"] - esum(c, x, dbl), eE):
                     sig = "outside-grid:unprojected-hill-counted-twice"
+                elif close(im["E"], eo) and facts["rebins"] > 0:
+                    sig = "rebin:off-grid-hills-not-recounted-on-new-grid"
                 elif close(im["E"], eo):
                     sig = "outside-grid:hills-far-from-edges-dropped"
                 else:
@@ -971,6 +989,10 @@ def witnesses():
         # rebinGrids without keepHills (map_grid) onto the expanded grid extended by whole bins: expandBoundaries, hillWidth 2:
         # the grid [0,8) becomes [-4,11) at the first step; new boundaries [-6,13)
         _cfg("w_rebin_from_grids", [_var(expand=True)], [[3.5], [3.5], [4.5], ("rebin", [(19, -6.0, 13.0)]), [4.5], [-5.5], [12.25]]),
+        # restart with rebinGrids from the kept hills onto a grid cut INWARDS: hills at 9.5 were 10.5 bins from the old upper
+        # edge (not near), and are 1.5 bins from the new one; then excursions beyond the new boundaries
+        _cfg("w_rebin_inwards", [_var(nx=20)], [[9.5], [9.5], [9.5], [10.5], ("rebin", [(11, 0.0, 11.0)]), [10.5], [11.25], [11.75], [-0.5]], keep=True),
+        _cfg("w_rebin_inwards_low", [_var(nx=20, sigma=0.5)], [[10.5], [10.5], [9.5], ("rebin", [(10, 8.5, 18.5)]), [9.5], [8.25], [7.5], [18.75]], keep=True, hw=1.0),
         # restart with rebinGrids from the kept hills onto a shifted, larger grid
         _cfg("w_rebin", [_var()], [[0.5], [1.5], [3.25], ("rebin", [(12, -2.5, 9.5)]), [3.25], [-0.75], [9.75]], keep=True),
         # ebMeta: ramp during 3 steps, hills inside, beyond both boundaries (closest edge bin), with well-tempered
@@ -1157,6 +1179,7 @@ def check(run):
     cs += witnesses()
     n = 170 if quick else 4000
     cs += [gen_scn(r, k) for k in range(n)]
+    cs += [gen_scn(r, "f%d" % k, REBIN_FOCUS) for k in range(24 if quick else 600)]
     nsample = 0
     for (c, impl, mo, txt, rcv, o, traj, mline) in run_scenarios(run, exe, model, cs, d):
         check_one(run, c, impl, mo, txt, rcv, o, traj, mline)
